@@ -25,10 +25,14 @@ def consts():
 
 def run_seq(args):
     ver, prefix, seq, loop_mode = args
+    ncount = None
+    if ":" in ver:                      # "later:43": an NCP whose counter reads carry 43 values (the host knows 41 counter types)
+        ver, ncount = ver.split(":")[0], int(ver.split(":")[1])
 
     async def main(loop):
         app = compat.make_app()
         ezsp, gw, ncp = await ncp_ezsp.make_ezsp(loop, 4 if ver == "v4" else 8)
+        ncp.n_counters = ncount
         app._ezsp = ezsp
         lost = []
         app.connection_lost = lambda exc: lost.append(exc)
@@ -135,8 +139,12 @@ def run(ctx: Ctx):
             jobs.append(("later", prefix, ["timeout2", "timeout", "timeout2", "timeout", "timeout2", "okbad", "timeout"], False))
     for seq in itertools.product(("ok", "timeout", "timeout2"), repeat=5 if ctx.quick else 6):
         jobs.append(("later", 0, list(seq) + ["timeout", "timeout", "ezsperr", "timeout", "timeout"], False))
+    # firmware whose counter reads carry fewer / more values than the host has counter types (the reply is an open-ended list)
+    for nc in (1, 40, 43, 60):
+        for seq in itertools.product(("ok", "timeout", "ezsperr"), repeat=4 if ctx.quick else 6):
+            jobs.append((f"later:{nc}", per - 2 if nc == 43 else 0, list(seq) + ["timeout"] * 5, False))
     # the zigpy watchdog loop around the feed
-    for ver in ("v4", "later"):
+    for ver in ("v4", "later", "later:43"):
         for seq in itertools.product(("ok", "timeout", "ezsperr"), repeat=4 if ctx.quick else 6):
             jobs.append((ver, 0, list(seq) + ["timeout"] * 6, True))
     metas = [{"ver": j[0], "prefix": j[1], "seq": j[2], "loop": j[3]} for j in jobs]
